@@ -315,8 +315,15 @@ def run(facts, R):
         heads = [x for x in none_entries if not any(p in none_entries for p in b.preds()[x])]
         R.floor("stays-usable", len(heads), 1, "frame_outbound==None branches in " + b.path)
         again = [term_pt(b, i) for i, t in b.calls() if t["callee"]["name"] in recv_pats]
+        # (a transport failure of a later sink operation - the flush that ends a coalesced batch, a send - is a legitimate end of the
+        # connection: only exits that are not behind such an Err edge count)
+        sink_err = []
+        for x in sorted(b.live_blocks()):
+            for f in facts_at(b, bsym, facts, x):
+                if str(f["val"]) in ("Err", "Break") and not f.get("derived") and any(y[0] == "call" and y[1].rsplit("::", 1)[-1] in ("send", "feed", "flush", "close", "send_all") and "Sink" in y[1] for y in walk(f["expr"])):
+                    sink_err.append((x, 0))
         for h in heads:
-            w = must_cross(b, [(h, 0)], return_points(b), again, after_start=False)
+            w = must_cross(b, [(h, 0)], return_points(b), again, after_start=False, stop=sink_err)
             R.check(again and w is None, "stays-usable", b.path, "dropped-frame-continues",
                     "after an oversized frame is dropped the connection loop can end instead of reading the next message", b.span,
                     "loop continues (next recv crossed before any return)", path=w)
